@@ -295,7 +295,7 @@ theorem mergeRec_spec : ∀ (n left right : Nat) (p arr : Array Elem) (pre mid p
 
 theorem mergeSort_spec (a : Array Elem) :
     ∃ r, mergeSort a = .ok r ∧ Sorted r.toList ∧ r.toList.Perm a.toList := by
-  unfold mergeSort
+  unfold mergeSort mergeSortTo
   by_cases h : a.size < 2
   · simp only [h, if_true]
     exact ⟨a, rfl, sorted_of_length_le_one (by simp; omega), List.Perm.refl _⟩
@@ -306,5 +306,45 @@ theorem mergeSort_spec (a : Array Elem) :
     refine ⟨p', rfl, ?_, ?_⟩
     · rw [e2]; simpa using e3
     · rw [e2]; simpa using e4
+
+
+/-- the unpatched recursion on the empty array: every range `[0, right]` with `right > 0`
+ends in a read of `ptr[0]` -/
+theorem mergeRec_empty_oob : ∀ (right : Nat), 0 < right →
+    mergeRec #[] #[] 0 right = .error .oob := by
+  intro right
+  induction right using Nat.strongRecOn with
+  | _ right ih =>
+    intro h
+    unfold mergeRec
+    simp only [h, if_true, Nat.zero_add]
+    by_cases h2 : 0 < right / 2
+    · rw [ih (right / 2) (by omega) h2]
+    · have h1 : right = 1 := by omega
+      subst h1
+      have e1 : mergeRec #[] #[] 0 (1 / 2) = .ok (#[], #[]) := by
+        unfold mergeRec; simp
+      have e2 : mergeRec #[] #[] (1 / 2 + 1) 1 = .ok (#[], #[]) := by
+        unfold mergeRec; simp
+      simp only [e1, e2]
+      unfold mergeStep mergeFill mergeLoop rd
+      simp
+
+/-- **defect of the pinned tree**: `count - 1` wraps for the empty array -/
+theorem mergeSortOrig_empty_fails : mergeSortOrig #[] = .error .oob := by
+  unfold mergeSortOrig mergeSortTo
+  have h : 0 < wrapSub1 (#[] : Array Elem).size := by
+    have := ten_le_wrapSub1_zero
+    simp only [Array.size_empty]
+    omega
+  rw [mergeRec_empty_oob _ h]
+
+/-- the unpatched entry point agrees with the patched one on arrays with at least two
+elements (for `count = 1` both do nothing) -/
+theorem mergeSortOrig_eq_mergeSort {a : Array Elem} (h : 2 ≤ a.size)
+    (h64 : a.size < sizeMod) : mergeSortOrig a = mergeSort a := by
+  unfold mergeSortOrig mergeSort
+  rw [wrapSub1_of_pos (by omega) h64]
+  simp [show ¬ a.size < 2 by omega]
 
 end MgProof.C10
